@@ -104,7 +104,9 @@ def make_function(cfg, log, ctl):
                 raise exc
             return 'g(%r,%r,%r)' % b
     else:
-        def g(x, y=0):
+        ydef = cfg.get('ydefault', 0)
+
+        def g(x, y=ydef):
             log.append((x, y))
             if ctl.get('raise') is not None:
                 exc = ctl['raise']
@@ -155,7 +157,7 @@ def binding(call, cfg=None):
         else:
             x, rest = kw.pop('x'), ()
         return (x, rest, tuple(sorted(kw.items())))
-    d = {'y': 0}
+    d = {'y': (cfg or {}).get('ydefault', 0)}
     d.update(kw)
     for n, v in zip(('x', 'y'), args):
         d[n] = v
@@ -183,6 +185,11 @@ def make_keymap(name):
         'md5': lambda: km.hashmap(algorithm='md5'),
         'md5nf': lambda: km.hashmap(algorithm='md5', flat=False),
         'sha1typed': lambda: km.hashmap(algorithm='sha1', typed=True),
+        # flat keymaps with a user-chosen sentinel between positional and keyword parts
+        'rawsent': lambda: km.keymap(sentinel='|'),
+        'strsent': lambda: km.stringmap(sentinel=';'),
+        'md5sent': lambda: km.hashmap(algorithm='md5', sentinel=0),
+        'chain': lambda: km.stringmap(flat=False) + km.hashmap(algorithm='sha1'),
     }
     return table[name]()
 
@@ -273,21 +280,34 @@ class Sys(object):
         self.path = os.path.join(self.scratch, 'arch') if self.scratch else 'arch'
         self.fn = make_function(cfg, self.log, self.ctl)
         self.cacheobj = self._make_cache(first=True)
-        self.wrapper = self._decorate(self.fn, self.cacheobj)
         self.twin = None
-        if cfg.get('twin'):
-            # a second, separately constructed decorator of the same class with the same settings on a second function
-            # (its own function object, evaluation log, default cache / own in-memory archive): nothing is shared by design
+        if not cfg.get('twin'):
+            self.wrapper = self._decorate(self.fn, self.cacheobj)
+        else:
+            # a second function of the same shape -- made by the same factory, so it shares the code object but has a
+            # different default (y=7) -- with its own evaluation log.  Three arrangements:
+            #   True               a second decorator of the same class, constructed and applied after the first
+            #   'constructed-first' both decorator objects are constructed (with different maxsize) before either is applied
+            #   'same-decorator'   the very same decorator object applied to both functions (memo = lru_cache(); @memo f; @memo g)
             self.tlog = []
-            tcfg = dict(cfg, result='twin')
-            self.tfn = make_function(tcfg, self.tlog, {})
+            self.tcfg = dict(cfg, result='twin', ydefault=7)
+            self.tfn = make_function(self.tcfg, self.tlog, {})
+            self.tbindings = [binding(c, self.tcfg) for c in self.calls]
             b = cfg['backend']
             tcache = None if b == 'none' else {} if b == 'plaindict' else open_archive('dict', 'twin', cached=True)
-            if cfg['twin'] == 'same-decorator' and b == 'none':
-                # the very same decorator *object* applied to a second function (memo = lru_cache(...); @memo f; @memo g),
-                # no cache passed by the user
+            mode = cfg['twin']
+            if mode == 'same-decorator':
+                self.wrapper = self._decorate(self.fn, self.cacheobj)
                 self.twin = self.decorator(self.tfn)
+            elif mode == 'constructed-first':
+                dec1 = self._construct(self.cacheobj)
+                ms = cfg.get('maxsize')
+                dec2 = self._construct(tcache, maxsize=(ms + 3) if isinstance(ms, int) and ms > 0 else ms)
+                self.decorator = dec1
+                self.wrapper = dec1(self.fn)
+                self.twin = dec2(self.tfn)
             else:
+                self.wrapper = self._decorate(self.fn, self.cacheobj)
                 keep = self.decorator
                 self.twin = self._decorate(self.tfn, tcache)
                 self.decorator = keep
@@ -319,7 +339,12 @@ class Sys(object):
         return open_archive(self.kind, self.path, cached=True)
 
     def _decorate(self, fn, cacheobj):
+        return self._construct(cacheobj)(fn)
+
+    def _construct(self, cacheobj, maxsize='cfg'):
         cfg = self.cfg
+        if maxsize != 'cfg':
+            cfg = dict(cfg, maxsize=maxsize)
         cls = decorator_class(cfg)
         kw = {}
         if cacheobj is not None:
@@ -342,7 +367,7 @@ class Sys(object):
         else:
             dec = cls(maxsize=cfg['maxsize'], **kw)
         self.decorator = dec
-        return dec(fn)
+        return dec
 
     def _keys(self):
         return [self.wrapper.key(*a, **k) for (a, k) in self.calls]
@@ -534,12 +559,27 @@ def apply_event(S, ev, script=(), light=False, pre=None):
                 S.ctl['raise'] = exc
                 tr.raised = exc
                 tr.ret = w(*a, **k)
-            elif kind == 'tcall':
+            elif kind in ('tcall', 'tlookup'):
                 a, k = S.calls[ev[1]]
-                tr.extra['twin_expected'] = expected_result(dict(S.cfg, result='twin'), S.bindings[ev[1]])
-                tr.extra['twin_evals'] = len(S.tlog)
-                tr.ret = S.twin(*a, **k)
-                tr.extra['twin_evals'] = len(S.tlog) - tr.extra['twin_evals']
+                tr.extra['twin_expected'] = expected_result(S.tcfg, S.tbindings[ev[1]])
+                tc = S.twin.__cache__()
+                tmem = dict(tc.items()) if type(tc).__name__ != 'cache' else dict(dict.items(tc))
+                tr.extra['twin_mem_pre'] = tmem
+                try:
+                    tr.extra['twin_key'] = S.twin.key(*a, **k)
+                except BaseException as e:
+                    tr.extra['twin_key'] = ('KEY-RAISED', type(e).__name__)
+                n0t = len(S.tlog)
+                try:
+                    tr.ret = S.twin(*a, **k) if kind == 'tcall' else S.twin.lookup(*a, **k)
+                finally:
+                    tr.extra['twin_evals'] = len(S.tlog) - n0t
+                    tc = S.twin.__cache__()
+                    tr.extra['twin_mem_post'] = dict(tc.items()) if type(tc).__name__ != 'cache' else dict(dict.items(tc))
+                    try:
+                        tr.extra['twin_info'] = tuple(S.twin.info())
+                    except BaseException as e:
+                        tr.extra['twin_info'] = ('ERR', type(e).__name__)
             elif kind in ('callu', 'raiseu'):
                 name, val = unkeyables()[ev[1]]
                 if kind == 'raiseu':
@@ -877,9 +917,9 @@ def event_enabled(cfg, ev):
         return False
     if ev[0] == 'reclone' and b.split(':')[-1] in ('sql', 'sqlmem'):
         return False
-    if ev[0] == 'tcall' and not cfg.get('twin'):
+    if ev[0] in ('tcall', 'tlookup') and not cfg.get('twin'):
         return False
-    if len(ev) > 1 and ev[0] in ('call', 'raise', 'dumpk', 'loadk', 'lookup', 'key', 'callx', 'tcall'):
+    if len(ev) > 1 and ev[0] in ('call', 'raise', 'dumpk', 'loadk', 'lookup', 'key', 'callx', 'tcall', 'tlookup'):
         if ev[1] >= len(call_table(cfg)):
             return False
     return True
